@@ -369,6 +369,21 @@ impl<T: Probe> Probe for Box<T> {
     }
 }
 
+/// `()`: the account set without accounts (an empty struct in the model)
+impl Probe for () {
+    type Client = ();
+    fn shape() -> Sexp {
+        Sexp::tagged("struct", vec![])
+    }
+    fn client(v: &Sexp) -> Option<()> {
+        matches!(v.items("many"), Some([])).then_some(())
+    }
+    fn show(&self) -> Sexp {
+        Sexp::tagged("many", vec![])
+    }
+    fn static_metas(_out: &mut Vec<(bool, bool)>) {}
+}
+
 /// Compile-time tie between `Probe::Client` and the real `ClientAccounts`.
 pub trait ProbeSet: Probe + ClientAccountSet<ClientAccounts = <Self as Probe>::Client> {}
 impl<T> ProbeSet for T where T: Probe + ClientAccountSet<ClientAccounts = <T as Probe>::Client> {}
